@@ -48,7 +48,7 @@ Let VH := sol "V @ H'_diag".
 Lemma add0r (x : T) : x + 0 == x. Proof. non_commutative_ring. Qed.
 
 Ltac getS name H := pose proof (solution_series Hsol name eq_refl) as H; sem_unfold H;
-  rewrite ?ring_add_0_l, ?add0r, ?Lo_zero in H.
+  rewrite ?Lo_zero, ?ring_add_0_l, ?add0r in H.
 Ltac getP name H := pose proof (solution_product Hsol name eq_refl) as H; sem_unfold H.
 
 Lemma eHd : Hd == Pos (Sel H).
@@ -153,6 +153,155 @@ Proof.
   - apply ord_Sel. apply ord_sub. apply ord_add. apply ord_add. apply oHd.
     apply ord_divz. apply ord_add. apply oA. apply ord_adj, oA.
     apply ord_opp, ord_half. apply ord_add. apply oUdB. apply ord_adj, oUdB. apply oY.
+Qed.
+
+(* ------------------------------------------------------------------------------------ *)
+(** * General wiring: two_block_optimized = False *)
+Hypothesis tb_false : tb = false.
+
+Ltac getSf name H := pose proof (solution_series Hsol name eq_refl) as H; sem_unfold H;
+  rewrite tb_false in H; rewrite ?Lo_zero, ?ring_add_0_l, ?add0r in H.
+
+(* Yadj *)
+Lemma Y_general : Y == yy - Rw (Sel yy).
+Proof.
+  getSf "Yadj" E. fold Y X in E. change (divz (adj X + X) 2) with yy in E.
+  rewrite !Hrf, Rw_zero, ring_add_0_l in E.
+  set (y := Rp yy + Sel (yy - Rw yy)) in E.
+  assert (Ey : y == yy - Rw (Sel yy)).
+  { unfold y. rewrite Sel_sub, Rw_Sel. unfold Rp. non_commutative_ring. }
+  assert (oy : ord 1 y).
+  { rewrite Ey. apply ord_sub. apply ord_half. apply ord_add. apply ord_adj, oX. apply oX.
+    apply ord_Rw, ord_Sel, ord_half. apply ord_add. apply ord_adj, oX. apply oX. }
+  rewrite Pos_of_ord1 in E.
+  2:{ apply ord_add. apply ord_add. apply ord_Dg, oy. apply ord_Up, oy. apply ord_adj, ord_Up, oY. }
+  apply tri_herm in E. rewrite E, <- Ey. apply full_of_herm.
+  rewrite Ey, adj_sub, yy_herm, (Rw_Sel_herm _ yy_herm). reflexivity.
+Qed.
+Lemma Y_herm : adj Y == Y.
+Proof. rewrite Y_general, adj_sub, yy_herm, (Rw_Sel_herm _ yy_herm). reflexivity. Qed.
+
+(* V *)
+Let arg := Y - VH - adj VH.
+Lemma arg_herm : adj arg == arg.
+Proof. unfold arg. rewrite !adj_sub, adj_inv, Y_herm. non_commutative_ring. Qed.
+Lemma V_general : V == - Rp (sylv arg).
+Proof.
+  getS "V" E. fold V Y VH in E.
+  change (fenv "solve_sylvester" [adj Y - VH - adj VH]) with (sylv (adj Y - VH - adj VH)) in E.
+  assert (Ea : adj Y - VH - adj VH == arg) by (unfold arg; rewrite Y_herm; reflexivity).
+  rewrite Ea in E.
+  set (b := Rp (- sylv arg)) in E.
+  assert (oa : ord 1 arg).
+  { unfold arg. apply ord_sub. apply ord_sub. apply oY. apply oVH. apply ord_adj, oVH. }
+  assert (ob : ord 1 b) by (unfold b; apply ord_Rp, ord_opp, sylv_ord, oa).
+  rewrite Pos_of_ord1 in E.
+  2:{ apply ord_add. apply ord_add. apply ord_Dg, ob. apply ord_Up, ob. apply ord_opp, ord_adj, ord_Up, oV. }
+  apply tri_antiherm in E. rewrite E.
+  assert (Eb : adj b == - b).
+  { unfold b. rewrite <- Rp_adj, adj_opp.
+    assert (Es : adj (sylv arg) == - sylv arg).
+    { rewrite <- arg_herm at 2. rewrite sylv_adj. non_commutative_ring. }
+    rewrite Es, !Rp_opp. reflexivity. }
+  rewrite (full_of_antiherm _ Eb). unfold b. apply Rp_opp.
+Qed.
+Lemma V_anti : adj V == - V.
+Proof.
+  rewrite V_general, adj_opp, <- Rp_adj.
+  assert (Es : adj (sylv arg) == - sylv arg).
+  { rewrite <- arg_herm at 2. rewrite sylv_adj. non_commutative_ring. }
+  rewrite Es, Rp_opp. reflexivity.
+Qed.
+
+(* W and the Hermitian-declared product *)
+Let F := Ud' * U'.
+Let hs := hsum Ud' U'.
+Lemma Dg_hs : Dg hs == hs. Proof. apply hsum_Dg. Qed.
+Lemma Up_hs : Up hs == 0. Proof. rewrite <- Dg_hs. apply Up_Dg. Qed.
+Lemma Lo_hs : Lo hs == 0. Proof. rewrite <- Dg_hs. apply Lo_Dg. Qed.
+Lemma eP' : P == hs + Up F + adj (Up F). Proof. exact eP. Qed.
+Lemma DgP : Dg P == hs.
+Proof. rewrite eP'. rewrite !am_add, Dg_hs, Dg_Up, Dg_adj, Dg_Up, adj_zero. non_commutative_ring. Qed.
+Lemma UpP : Up P == Up F.
+Proof. rewrite eP'. rewrite !am_add, Up_hs, Up_Up, adj_Up, Up_Lo. non_commutative_ring. Qed.
+Lemma oF : ord 1 F. Proof. unfold F. apply (ord_le (k:=2)). auto. apply ord_mul_l. apply oUd'. apply oU'. Qed.
+Lemma oP : ord 1 P.
+Proof. rewrite (blk_split P), DgP, UpP.
+  assert (EL : Lo P == adj (Up F)).
+  { rewrite eP'. rewrite !am_add, Lo_hs, Lo_Up, adj_Up, Lo_Lo. non_commutative_ring. }
+  rewrite EL. apply ord_add. apply ord_add.
+  - assert (E : hs == (hs - Dg F) + Dg F) by non_commutative_ring. rewrite E. apply ord_add.
+    + apply hsum_spec. apply oUd'. apply oU'. apply ord_O.
+    + apply ord_Dg, oF.
+  - apply ord_Up, oF.
+  - apply ord_adj, ord_Up, oF.
+Qed.
+Lemma W_form : W == - (half hs + half (Up F) + adj (half (Up F))).
+Proof.
+  getSf "W" E. fold W P in E.
+  assert (Ew : Sel (divz P (-2)) + Rp (divz P (-2)) == - half P).
+  { rewrite divz_m2. unfold Rp. non_commutative_ring. }
+  rewrite Ew in E.
+  rewrite Pos_of_ord1 in E.
+  2:{ apply ord_add. apply ord_add. apply ord_Dg, ord_opp, ord_half, oP. apply ord_Up, ord_opp, ord_half, oP.
+      apply ord_adj, ord_Up, oW. }
+  apply tri_herm in E. rewrite E.
+  assert (E1 : Dg (- half P) == - half hs) by (rewrite am_opp, (half_am Dg), DgP; reflexivity).
+  assert (E2 : Up (- half P) == - half (Up F)) by (rewrite am_opp, (half_am Up), UpP; reflexivity).
+  rewrite E1, E2, adj_opp. non_commutative_ring.
+Qed.
+
+Let EW := adj W - W.
+Lemma EW_form : EW == half (hs - adj hs).
+Proof.
+  unfold EW. rewrite W_form. rewrite adj_opp, !adj_add, adj_inv, half_adj, half_sub. non_commutative_ring.
+Qed.
+Let dl := U' - adj Ud'.
+Lemma dl_EW : dl == - EW.
+Proof. unfold dl, EW. rewrite eU', eUd', adj_sub, V_anti. non_commutative_ring. Qed.
+Lemma odl : ord 1 dl. Proof. unfold dl. apply ord_sub. apply oU'. apply ord_adj, oUd'. Qed.
+Lemma adjF : adj F == F - Ud' * dl + adj dl * U' - adj dl * dl.
+Proof.
+  unfold F. rewrite adj_mul.
+  assert (E1 : adj Ud' == U' - dl) by (unfold dl; non_commutative_ring).
+  assert (E2 : adj U' == Ud' + adj dl) by (unfold dl; rewrite adj_sub, adj_inv; non_commutative_ring).
+  rewrite E1, E2. non_commutative_ring.
+Qed.
+Lemma EW_step k : ord k EW -> ord (S k) EW.
+Proof.
+  intros Hk.
+  assert (Hd' : ord k dl) by (rewrite dl_EW; apply ord_opp, Hk).
+  assert (H1 : ord (S k) (hs - Dg F)).
+  { apply hsum_spec. apply oUd'. apply oU'. exact Hd'. }
+  assert (H2 : ord (S k) (adj F - F)).
+  { rewrite adjF.
+    assert (E : F - Ud' * dl + adj dl * U' - adj dl * dl - F == - (Ud' * dl) + adj dl * U' - adj dl * dl) by non_commutative_ring.
+    rewrite E. apply ord_sub. apply ord_add. apply ord_opp. apply ord_mul_l. apply oUd'. exact Hd'.
+    apply ord_mul_r. apply ord_adj, Hd'. apply oU'.
+    apply ord_mul_l. apply ord_adj, odl. exact Hd'. }
+  rewrite EW_form. apply ord_half.
+  assert (E : hs - adj hs == (hs - Dg F) - adj (hs - Dg F) - Dg (adj F - F)).
+  { rewrite !adj_sub, Dg_sub, Dg_adj. non_commutative_ring. }
+  rewrite E. apply ord_sub. apply ord_sub. exact H1. apply ord_adj, H1. apply ord_Dg, H2.
+Qed.
+Lemma EW_zero : EW == 0.
+Proof. apply ord_eq_zero. exact EW_step. Qed.
+Lemma W_herm : adj W == W.
+Proof. assert (E : adj W == EW + W) by (unfold EW; non_commutative_ring). rewrite E, EW_zero. non_commutative_ring. Qed.
+Lemma dl_zero : dl == 0.
+Proof. rewrite dl_EW, EW_zero. non_commutative_ring. Qed.
+Lemma hs_full : hs == Dg F.
+Proof. apply eq_of_ord. intros k. apply (ord_le (k:=S k)). auto.
+  apply hsum_spec. apply oUd'. apply oU'. fold dl. rewrite dl_zero. apply ord_zero. Qed.
+Lemma F_herm : adj F == F.
+Proof. rewrite adjF, dl_zero, adj_zero. non_commutative_ring. Qed.
+Lemma P_full : P == F.
+Proof. rewrite eP'. rewrite hs_full. apply full_of_herm. exact F_herm. Qed.
+Lemma W_general : W == - half ((W - V) * (W + V)).
+Proof.
+  rewrite W_form at 1. rewrite hs_full, <- half_adj, <- !half_add, adj_Up, F_herm.
+  assert (E : Dg F + Up F + Lo F == F) by (symmetry; apply blk_split).
+  rewrite E. unfold F. rewrite eUd', eU'. reflexivity.
 Qed.
 
 End Common.
